@@ -166,6 +166,13 @@ pub fn run(rt: &tokio::runtime::Runtime, pool: &KeyPool, sc: &Value) -> Value {
     let mut results = Vec::new();
     for op in list(&sc["program"]) {
         let kind = op["op"].as_str().unwrap_or("");
+        // after a refused sign (the editor is consumed) or a failed from_repo there is no editor to operate on
+        let needs_editor = matches!(kind, "add_target" | "remove_target" | "clear_targets" | "versions" | "expires"
+            | "delegate_role" | "sign_targets_editor" | "change_delegated_targets" | "update_delegated_targets" | "sign_write");
+        if needs_editor && s.editor.is_none() {
+            results.push(json!([997]));
+            continue;
+        }
         let r: Result<Value, tough::error::Error> = (|| {
             match kind {
                 "new" => {
